@@ -60,6 +60,7 @@ type History struct {
 	Workers  int    `json:"workers"`
 	Recs     []Rec  `json:"recs"`
 	Unclosed []int  `json:"unclosed,omitempty"` // sources not closed 2 s after cancel
+	Starved  []int  `json:"starved,omitempty"`  // sources whose events were not all received within 3 s of a running loop
 	Leaked   int    `json:"leaked,omitempty"`   // goroutines above the baseline after cancel
 	Note     string `json:"note,omitempty"`
 }
@@ -236,7 +237,27 @@ func runHistory(idx int, seed int64) History {
 		time.Sleep(time.Duration(rng.Intn(2500)) * time.Microsecond)
 	} else {
 		wg.Wait()
-		fwg.Wait()
+		// every source is consumed by its own goroutine: all events are taken within moments;
+		// a source nobody reads from is reported instead of being waited for forever
+		fed := make(chan struct{})
+		go func() { fwg.Wait(); close(fed) }()
+		select {
+		case <-fed:
+		case <-time.After(3 * time.Second):
+			got := map[int]int{}
+			rec.mu.Lock()
+			for _, r := range rec.recs {
+				if r.Tag == "V" {
+					got[r.A]++
+				}
+			}
+			rec.mu.Unlock()
+			for c, s := range srcs {
+				if got[s.id] < len(s.evs) {
+					h.Starved = append(h.Starved, c)
+				}
+			}
+		}
 		time.Sleep(time.Duration(200+rng.Intn(800)) * time.Microsecond)
 	}
 	rec.tick(Rec{Tag: "C"})
@@ -615,6 +636,10 @@ func main() {
 			if nd > 0 && na > 0 {
 				sum := sha1.Sum([]byte(enc))
 				distinct[hex.EncodeToString(sum[:])] = struct{}{}
+			}
+			if len(h.Starved) > 0 {
+				addDirect(map[string]interface{}{"key": fmt.Sprintf("starved:%d", h.Idx), "kind": "history", "kinds": []string{"starved"},
+					"what": fmt.Sprintf("history %d (seed %d, %d sources): the events of sources %v were not received within 3 s although the loop was running and nothing was cancelled", h.Idx, h.Seed, h.Sources, h.Starved), "history": h.Idx, "seed": seed})
 			}
 			if len(h.Unclosed) > 0 {
 				addDirect(map[string]interface{}{"key": fmt.Sprintf("unclosed:%d", h.Idx), "kind": "history", "kinds": []string{"unclosed"},
